@@ -175,6 +175,13 @@ partial def loop (hs ht : IO.FS.Handle) (cfg : Cfg) (n drift : Nat) : IO (Nat ×
           if fs.isEmpty then IO.println s!"V {sc.id} C15 ok n={k}"
           else for ftxt in fs.eraseDups do IO.println s!"V {sc.id} C15 FAIL {ftxt}"
           for ftxt in (Big.c15Verdicts sc model).2.eraseDups do IO.println s!"VM {sc.id} C15 FAIL {ftxt}"
+        if cfg.props.contains "C04" then
+          let (k, fs) := Big.c04Verdicts sc impl
+          if fs.isEmpty then IO.println s!"V {sc.id} C04 ok n={k}"
+          else for ftxt in fs.eraseDups do IO.println s!"V {sc.id} C04 FAIL {ftxt}"
+          for ftxt in (Big.c04Verdicts sc model).2.eraseDups do IO.println s!"VM {sc.id} C04 FAIL {ftxt}"
+          -- recovery: the suffix after [reset; init; op] against the never-failed twin
+          IO.println s!"O {sc.id} C04 {Big.suffixDigest impl 3}"
         if cfg.props.contains "C10" then
           let (k, fs) := Big.c10Verdicts sc impl
           if fs.isEmpty then IO.println s!"V {sc.id} C10 ok n={k}"
